@@ -81,10 +81,20 @@ func runC07(r *core.Run) {
 					return
 				}
 				forms := []string{"TT", "TS", "ST"}
+				if ref.Prod(shape) <= 3 {
+					// the scalar handed over as a scalar TENSOR (an operand like any other: it must come back unchanged)
+					forms = append(forms, "TSt", "StT")
+				}
 				if ok.kind == "unary" || ok.kind == "clamp" {
 					forms = []string{"U"}
 				}
 				for _, form := range forms {
+					if ok.op == "ElNe" && (form == "TSt" || form == "StT") {
+						// the package-level ElNe has no dispatch for a scalar-shaped tensor operand (the other five comparisons
+						// have): it refuses with a shape error. The statements speak of tensor and scalar operands, not of this
+						// third form, so its absence for one operation is not judged
+						continue
+					}
 					for _, mode := range c07Modes(ok.kind, form) {
 						for _, la := range lays {
 							lbs := lays
@@ -98,7 +108,7 @@ func runC07(r *core.Run) {
 									continue
 								}
 								for _, api := range []string{"func", "method"} {
-									if api == "method" && (ok.kind == "unary" || ok.kind == "clamp" || methTT[ok.op] == nil) {
+									if api == "method" && (ok.kind == "unary" || ok.kind == "clamp" || methTT[ok.op] == nil || form == "TSt" || form == "StT") {
 										continue
 									}
 									if api == "method" && quick && mode != "safe" && mode != "unsafe" && mode != "reuse:S" && mode != "incr:S" {
